@@ -27,7 +27,12 @@ Definition plan_link (m : lmode) (s : slink) (d : dentry) : laction :=
                | LFollow => LkUpdate
                | _ => if N.eqb t (l_target s) then LkSkip else LkUpdate
                end
-  | DFile _ | DDir => LkUpdate
+  | DFile c => match m, l_cwd s with
+               | LFollow, RFile c' => if N.eqb c c' then LkSkip else LkUpdate      (* the copy of the link's referent is current
+                                                                                     (`fix: follow mode does not copy an up-to-date entry again`) *)
+               | _, _ => LkUpdate
+               end
+  | DDir => LkUpdate
   end.
 
 Inductive lerr : Type := LE_Exists.
@@ -96,7 +101,13 @@ Definition link_event (m : lmode) (s : slink) (d : dentry) : levent :=
                 end
   | LkUpdate => match update_link m s d with
                 | inr _ => EvError
-                | inl _ => if produced m s then EvUpdate else match m with LSkip => EvSkip | _ => EvUpdate end
+                | inl _ => if produced m s then EvUpdate
+                           else match m, d with
+                                | LSkip, _ => EvSkip
+                                | LFollow, DLink _ => EvUpdate          (* the destination link was removed before the run found out *)
+                                | LFollow, _ => EvSkip                  (* nothing resolves, nothing was touched *)
+                                | LPreserve, _ => EvUpdate
+                                end
                 end
   end.
 
